@@ -24,6 +24,10 @@ int main(int argc, char **argv) {
               bits_of(PhysicalConstants::get_physical_constant(PHYSICALCONSTANT_LIGHTSPEED)));
   std::printf("const electronvolt %" PRIu64 "\n",
               bits_of(PhysicalConstants::get_physical_constant(PHYSICALCONSTANT_ELECTRONVOLT)));
+  std::printf("const protonMass %" PRIu64 "\n",
+              bits_of(PhysicalConstants::get_physical_constant(PHYSICALCONSTANT_PROTON_MASS)));
+  std::printf("const boltzmann %" PRIu64 "\n",
+              bits_of(PhysicalConstants::get_physical_constant(PHYSICALCONSTANT_BOLTZMANN)));
   std::printf("enum QUANTITY_ENERGY %d\n", (int)QUANTITY_ENERGY);
   std::printf("enum QUANTITY_FREQUENCY %d\n", (int)QUANTITY_FREQUENCY);
   std::printf("enum QUANTITY_LENGTH %d\n", (int)QUANTITY_LENGTH);
